@@ -48,12 +48,14 @@ int cmd_c13(int argc, char **argv) {
       /* quick: every hkl with |.|<=3 on one seeded (E, dw, rel) tuple; thorough: |.|<=6 */
       if (thorough && (abs(h) > 3 || abs(k) > 3 || abs(l) > 3) && rnd01() > 0.2) continue;     /* thorough: all |hkl| <= 3, a seeded 20% of the rest up to 6 */
       if (idx++ % nparts != part) continue;
+      for (int rep = 0; rep < (thorough ? 3 : 1); rep++) {
       double E = (thorough ? 0.1 * pow(2000.0, rnd01()) : EQ[rndint(0, 7)]); if (rndint(0, 60) == 0) E = EQ[8 + rndint(0, 1)];
       /* one event in four sits at the threshold of the reflection, hc/E = 2 d, approached from both sides */
       if ((h || k || l) && rndint(0, 3) == 0) { double d = Crystal_dSpacing(c, h, k, l, NULL); if (d > 0) E = KEV2ANGST / (2 * d) * (1.0 + (double[]){-1e-3, -1e-6, -1e-9, 1e-9, 1e-6, 1e-3}[rndint(0, 5)]); }
       double dw = (double[]){1.0, 0.5, 0.9}[rndint(0, 2)]; if (rndint(0, 50) == 0) dw = -0.5;
       double rel = (double[]){1.0, 0.5, 1.2}[rndint(0, 2)];
       event(c, ci < n, h, k, l, E, dw, rel);
+      }
     }
     if (ci < n) Crystal_Free(c);
   }
